@@ -81,6 +81,11 @@ func (n *Node) HasFlag(f int) bool {
 	return false
 }
 
+// canonFlagKinds mirrors obs.FlagKinds (gen does not import obs): kinds whose by-reference / variadic / static
+// marker is a token of the node itself.
+var canonFlagKinds = map[string]bool{"Argument": true, "ExprArrayItem": true, "ExprArrowFunction": true, "ExprClosure": true, "ExprClosureUse": true,
+	"Parameter": true, "StmtClassMethod": true, "StmtForeach": true, "StmtFunction": true}
+
 // Canon renders the expected structure in the canonical form of obs.StructureCanon:
 // (Kind role:child role:[list] Value:"..."), roles sorted by name, absent roles omitted.
 func (n *Node) Canon() string {
@@ -96,6 +101,25 @@ func (n *Node) canon(sb *strings.Builder) {
 	}
 	sb.WriteByte('(')
 	sb.WriteString(n.Kind)
+	if canonFlagKinds[n.Kind] {
+		var fl []string
+		seen := map[string]bool{}
+		for _, p := range n.Parts {
+			if tk, ok := p.(Tok); ok {
+				switch l := strings.ToLower(tk.S); l {
+				case "&", "...", "static":
+					if !seen[l] {
+						seen[l] = true
+						fl = append(fl, l)
+					}
+				}
+			}
+		}
+		if len(fl) > 0 {
+			sort.Strings(fl)
+			sb.WriteString("#" + strings.Join(fl, ","))
+		}
+	}
 	type ent struct {
 		name string
 		k    *Kid
